@@ -128,3 +128,25 @@ def register(reg):
         req = ModuleInfo.get("werkzeug/wrappers/request.py").classes["Request"]
         vals = {k: ast.unparse(v) for k, v in req.attrs.items() if k in ("max_form_memory_size", "max_form_parts", "max_content_length")}
         return [("defaults", vals.get("max_form_memory_size") == "500000" and vals.get("max_form_parts") == "1000", str(vals))]
+
+    # ---- urlencoded forms: the declared length is checked before anything is read -----------------------------
+    from pyvc.values import VBuiltin, VObj
+    St = reg.model("BodyStream", fields={"nread": "int"})
+    reg.contract("model:BodyStream.read", prop=P, trusted=True, param_names=["self"], returns="bytes",
+                 modifies=["self.nread"], ensures=["self.nread == old(self.nread) + 1"])
+    reg.overrides["std:urllib.parse.parse_qsl"] = lambda interp: VBuiltin(
+        "urllib.parse.parse_qsl", lambda it, a, k, n: it.fresh("opaque:pairs", "qsl"))
+    FP = reg.model("FormDataParser", cls="werkzeug/formparser.py:FormDataParser",
+                   fields={"max_form_memory_size": "Optional[int]", "cls": "opaque:multidict_class"})
+    reg.overrides["call:multidict_class"] = lambda it, fv, a, k, n: it.fresh("opaque:multidict", "md")
+    reg.contract(
+        "werkzeug/formparser.py:FormDataParser._parse_urlencoded", prop=P, self_model=FP,
+        params={"stream": St, "mimetype": "str", "content_length": "Optional[int]", "options": "opaque:options"},
+        ensures=["not (self.max_form_memory_size is not None and content_length is not None and "
+                 "     content_length > self.max_form_memory_size)",
+                 "result[0] is stream"],
+        raises={"RequestEntityTooLarge": "self.max_form_memory_size is not None and content_length is not None and "
+                                         "content_length > self.max_form_memory_size",
+                "UnicodeDecodeError": "True"},
+        raises_ensures={"RequestEntityTooLarge": ["stream.nread == old(stream.nread)"]},
+    )
